@@ -3,7 +3,7 @@ from checks import krill_common as kc
 
 PID = "C02"
 LEVEL = "model_checking"
-THEMES = "chain,roll,multi,mix,foreign,deep".split(",")
+THEMES = "chain,roll,multi,mix,foreign,deep,autosus".split(",")
 NEEDED = "ChildRes,Settled".split(",")
 
 RULE = (
@@ -59,21 +59,24 @@ def run(tier, seed):
         assumptions=kc.COMMON_ASSUMPTIONS, rule=RULE, needed_events=NEEDED,
         mc_cfgs=(['MC_Krill_q_chain.cfg', 'MC_Krill_q_life.cfg',
                   'MC_Krill_q_multi.cfg', 'MC_Krill_q_foreign.cfg',
+                  'MC_Krill_q_autosus.cfg',
                   # "converges" as a temporal property
                   'MC_Krill_live_q_chain.cfg', 'MC_Krill_live_sanity.cfg']
                  if tier == "quick" else
                  ['MC_Krill_q_chain.cfg', 'MC_Krill_q_life.cfg',
                   'MC_Krill_q_multi.cfg', 'MC_Krill_q_foreign.cfg',
                   'MC_Krill_chain.cfg', 'MC_Krill_life.cfg',
+                  'MC_Krill_q_autosus.cfg',
                   'MC_Krill_live_q_chain.cfg', 'MC_Krill_live_sanity.cfg',
                   'MC_Krill_live_chain.cfg']),
         directed=(DIRECTED + kc.MULTI_DIRECTED[:1]
                   + kc.clause("chain-shrink-after-suspension",
                               "shrink-to-nothing", "foreign-limit-shrink",
                               "foreign-limit-refused",
-                              "shrink-regrow-before-child-sync")),
+                              "shrink-regrow-before-child-sync",
+                              "auto-suspend-inactive-children")),
         theme_nums={"multi": (6, 80), "mix": (4, 60), "foreign": (6, 80),
-                    "deep": (4, 60)})
+                    "deep": (4, 60), "autosus": (4, 60)})
 
 
 def replay(path, seed):
